@@ -912,9 +912,11 @@ def _check_owning_next(ctx, R, adt, b, key):
     main_next = [c for c in calls if c.method == "next" and _side_of_receiver(ctx, b, c) == "IT_MAIN" and not b.is_cleanup(c.loc.bb)]
     old_next = [c for c in calls if c.method == "next" and _side_of_receiver(ctx, b, c) == "IT_OLD" and not b.is_cleanup(c.loc.bb)]
     # the old side polled through a combinator: X = self.old.as_mut().map(|it| it.next())  (X: Option<Option<T>>; None = absent)
+    #  .. or flattened: X = self.old.as_mut().and_then(|it| it.next())  (X: Option<T>; None = absent or exhausted), the function also
+    #  written as the method itself (`Iterator::next`)
     old_maps = []
     for c in calls:
-        if c.name != OPT + "map" or b.is_cleanup(c.loc.bb) or not c.closure_args() or c.dest is None or c.dest["proj"]:
+        if c.name not in (OPT + "map", OPT + "and_then") or b.is_cleanup(c.loc.bb) or len(c.args) != 2 or c.dest is None or c.dest["proj"]:
             continue
         src_ok = False
         sd = b.source_def(c.args[0])
@@ -922,11 +924,19 @@ def _check_owning_next(ctx, R, adt, b, key):
             sc = ctx.call_at(b, sd[0].bb)
             if sc.name in (OPT + "as_mut",) and ctx.role(b, sc.arg_path(0)) == "IT_OLD":
                 src_ok = True
-        cb = c.closure_args()[0]
-        inner = [x for x in ctx.calls(cb) if not cb.is_cleanup(x.loc.bb)]
-        if src_ok and len(inner) == 1 and inner[0].method == "next" and inner[0].arg_path(0) is not None and inner[0].arg_path(0).root == 2 \
-                and not inner[0].arg_path(0).fields() and inner[0].dest is not None and inner[0].dest["local"] == 0 and not inner[0].dest["proj"]:
-            old_maps.append(c)
+        polls = False
+        if c.closure_args():
+            cb = c.closure_args()[0]
+            inner = [x for x in ctx.calls(cb) if not cb.is_cleanup(x.loc.bb)]
+            polls = len(inner) == 1 and inner[0].method == "next" and inner[0].arg_path(0) is not None and inner[0].arg_path(0).root == 2 \
+                and not inner[0].arg_path(0).fields() and inner[0].dest is not None and inner[0].dest["local"] == 0 and not inner[0].dest["proj"]
+        elif c.args[1]["k"] == "const" and (c.args[1].get("fn") or "").endswith("::Iterator::next"):
+            polls = True
+        if src_ok and polls:
+            if c.name == OPT + "map":
+                old_maps.append(c)
+            else:
+                old_next.append(c)
     if not main_next or not (old_next or old_maps):
         R.viol(key + ":next-sides", b.where(Loc(0, 0)), "next() of %s does not poll both sides" % adt)
         return {}
